@@ -1,1 +1,120 @@
-/-! # C03 — property theorems (to be filled) -/
+import PraatModel.Open
+import PraatModel.Props.C01
+
+/-!
+# C03 — the reader returns what a conformant file encodes: duplicate-name policy, blank removal
+
+The two text parsers are tied to the code by the correspondence run on files produced by the independent writer
+(every layout × encoding × newline) and by unit comparison of each matcher with `re` itself; the label codec is C01's
+`scanText_written` / `word_written` (all labels).  Proved here: the duplicate-tier-name policy and `_removeBlanks`.
+-/
+namespace C03
+
+/-- the candidates tried by the renaming loop are pairwise different -/
+def CandInj (sfx : Nat → String) : Prop := ∀ (name : String) (i j : Nat), name ++ "_" ++ sfx i = name ++ "_" ++ sfx j → i = j
+
+theorem findFree_fresh (sfx : Nat → String) (hinj : CandInj sfx) (name : String) (seen : List String)
+    (fuel i : Nat) (T : List String) (hT : ∀ j, i ≤ j → name ++ "_" ++ sfx j ∈ seen → name ++ "_" ++ sfx j ∈ T)
+    (hlen : T.length < fuel) : findFree sfx name seen fuel i ∉ seen := by
+  induction fuel generalizing i T with
+  | zero => omega
+  | succ fuel ih =>
+    simp only [findFree]
+    by_cases hc : name ++ "_" ++ sfx i ∈ seen
+    · rw [if_pos hc]
+      have hcT := hT i (Nat.le_refl i) hc
+      apply ih (i + 1) (T.erase (name ++ "_" ++ sfx i))
+      · intro j hj hjs
+        have hjT := hT j (by omega) hjs
+        have hne : name ++ "_" ++ sfx j ≠ name ++ "_" ++ sfx i := by
+          intro e; have := hinj name j i e; omega
+        exact (List.mem_erase_of_ne hne).2 hjT
+      · rw [List.length_erase_of_mem hcT]
+        have : 0 < T.length := List.length_pos_of_mem hcT
+        omega
+    · rw [if_neg hc]; exact hc
+
+theorem renameDups_spec (sfx : Nat → String) (hinj : CandInj sfx) (seen names : List String) (hs : seen.Nodup) :
+    (seen ++ renameDups sfx seen names).Nodup ∧ (renameDups sfx seen names).length = names.length := by
+  induction names generalizing seen with
+  | nil => simp [renameDups, hs]
+  | cons n rest ih =>
+    simp only [renameDups]
+    generalize hn' : (if n ∈ seen then findFree sfx n seen (seen.length + 1) 2 else n) = n'
+    have hfresh : n' ∉ seen := by
+      rw [← hn']
+      by_cases h : n ∈ seen
+      · rw [if_pos h]
+        exact findFree_fresh sfx hinj n seen (seen.length + 1) 2 seen (fun _ _ h => h) (by omega)
+      · rw [if_neg h]; exact h
+    have hs' : (seen ++ [n']).Nodup := by
+      rw [List.nodup_append]
+      refine ⟨hs, by simp, ?_⟩
+      intro a ha b hb
+      simp only [List.mem_singleton] at hb; subst hb
+      intro e; subst e; exact hfresh ha
+    obtain ⟨i1, i2⟩ := ih (seen ++ [n']) hs'
+    constructor
+    · have : seen ++ n' :: renameDups sfx (seen ++ [n']) rest = (seen ++ [n']) ++ renameDups sfx (seen ++ [n']) rest := by simp
+      rw [this]; exact i1
+    · simp [i2]
+
+/-- **rename mode**: the resulting names are pairwise distinct, one per tier, in file order -/
+theorem dupnames_rename (sfx : Nat → String) (hinj : CandInj sfx) (names : List String) :
+    (renameDups sfx [] names).Nodup ∧ (renameDups sfx [] names).length = names.length := by
+  have := renameDups_spec sfx hinj [] names (by simp)
+  simpa using this
+
+/-- a name that has not occurred before is kept as it is (first occurrences keep their name) -/
+theorem dupnames_first_kept (sfx : Nat → String) (seen : List String) (n : String) (rest : List String) (h : n ∉ seen) :
+    renameDups sfx seen (n :: rest) = n :: renameDups sfx (seen ++ [n]) rest := by
+  simp [renameDups, h]
+
+/-- a file without duplicate names is left alone -/
+theorem dupnames_id (sfx : Nat → String) (seen names : List String) (h : (seen ++ names).Nodup) :
+    renameDups sfx seen names = names := by
+  induction names generalizing seen with
+  | nil => rfl
+  | cons n rest ih =>
+    have hn : n ∉ seen := by
+      intro hm
+      have := (List.nodup_append.1 h).2.2 n hm n (by simp)
+      exact this rfl
+    rw [dupnames_first_kept sfx seen n rest hn, ih (seen ++ [n]) (by simpa using h)]
+
+/-- **error mode**: `DuplicateTierName` exactly when a name repeats -/
+theorem dupnames_error (seen names : List String) (hs : seen.Nodup) :
+    checkDups seen names = .ok () ↔ (seen ++ names).Nodup := by
+  induction names generalizing seen with
+  | nil => simp [checkDups, hs]
+  | cons n rest ih =>
+    simp only [checkDups]
+    by_cases h : n ∈ seen
+    · simp only [h, if_true]
+      constructor
+      · intro e; cases e
+      · intro hnd
+        have := (List.nodup_append.1 hnd).2.2 n h n (by simp)
+        exact absurd rfl this
+    · simp only [h, if_false]
+      have hs' : (seen ++ [n]).Nodup := by
+        rw [List.nodup_append]
+        refine ⟨hs, by simp, ?_⟩
+        intro a ha b hb
+        simp only [List.mem_singleton] at hb; subst hb
+        intro e; subst e; exact h ha
+      rw [ih (seen ++ [n]) hs']
+      simp
+
+/-- `_removeBlanks`: with includeEmptyIntervals=False exactly the entries whose label is empty disappear; order and
+everything else is untouched -/
+theorem removeBlanks_spec (es : List (List String)) :
+    (es.filter fun e => e.getLast? != some "").Sublist es ∧
+    ∀ e, e ∈ (es.filter fun e => e.getLast? != some "") ↔ e ∈ es ∧ e.getLast? ≠ some "" := by
+  constructor
+  · exact List.filter_sublist
+  · intro e; simp [List.mem_filter]
+
+#guard renameDups toString [] ["a", "a", "a_2", "a", "b"] == ["a", "a_2", "a_2_2", "a_3", "b"]
+
+end C03
